@@ -3,7 +3,7 @@ import Aiorpcx.C11.Model
 /-! Line-protocol driver for the C11/C12 model.
     in : `<fixed 0|1> <cancelAt|-> <prog in prefix form>`
          prog ::= skip | sleep n | raise K | seq p p | block ig rel t p | try k K.. p p
-                | group k d1 r1 .. dk rk p
+                | group k d1 r1 .. dk rk p | groupany k d1 r1 .. dk rk p
     out: `<res> t=<now> dl=<#deadlines> armed=<0|1> deliv=<0|1> | d:res:expired:t ...`
          (a group exit is printed as `g:res:left:t`) -/
 open Aiorpcx Aiorpcx.C11
@@ -44,7 +44,13 @@ def parse : Nat → List String → Option (Prog × List String)
       let nums ← (r.take (2 * n)).mapM String.toNat?
       if nums.length ≠ 2 * n then none
       let (b, r1) ← parse f (r.drop (2 * n))
-      pure (.group (pairs nums) b, r1)
+      pure (.group false (pairs nums) b, r1)
+  | f + 1, "groupany" :: k :: r => do
+      let n ← k.toNat?
+      let nums ← (r.take (2 * n)).mapM String.toNat?
+      if nums.length ≠ 2 * n then none
+      let (b, r1) ← parse f (r.drop (2 * n))
+      pure (.group true (pairs nums) b, r1)
   | _, _ => none
 
 def handle (line : String) : String :=
